@@ -359,7 +359,8 @@ def r5_entry_api(ctx):
     F = ctx.facts
     E = "mahf::state::registry::entry::"
     STD = "std::collections::hash::map::"
-    inl = lambda k: k.startswith(E) or k.startswith("<" + E)
+    import statemodel as _sm
+    inl = lambda k: k.startswith(E) or k.startswith("<" + E) or _sm.module_helper(k)
     base_idx = {a: F.field_index(E + a, "base") for a in ("OccupiedEntry", "VacantEntry")}
 
     def wrap(kind):
